@@ -433,7 +433,7 @@ func checkC19(p *Prog, res *Result, tier string) {
 	res.rule("C19-R3", "skip-list / list elements are dereferenced only under the owning lock", 4)
 	res.rule("C19-R4", "post-construction writes to fields of mutex-less types are atomic or confined (frozen table)", 5)
 
-	lc := &lockCtx{p: p, memo: map[string]int{}, visiting: map[string]bool{}, tokens: map[*types.Named]*types.Var{}}
+	lc := p.lockContext()
 
 	// ---- owner types ----
 	type owner struct {
@@ -478,61 +478,8 @@ func checkC19(p *Prog, res *Result, tier string) {
 		}
 	}
 
-	// ---- lock token types (BeginBatchWrite idiom) ----
-	for _, f := range p.AllFuncs {
-		calls := mutexCallsIn(p, f)
-		for _, l := range calls {
-			if l.kind != "Lock" || l.deferred {
-				continue
-			}
-			unl := false
-			for _, u := range calls {
-				if u.obj == l.obj && u.mutex == l.mutex && (u.kind == "Unlock") {
-					unl = true
-				}
-			}
-			if unl {
-				continue
-			}
-			// every return is dominated by the Lock: the function hands the lock to its result
-			all, n := true, 0
-			var tokType *types.Named
-			var via *types.Var
-			for _, b := range f.Blocks {
-				ret, ok := b.Instrs[len(b.Instrs)-1].(*ssa.Return)
-				if !ok {
-					continue
-				}
-				n++
-				if !instrDominates(l.ins, ret) {
-					all = false
-				}
-				for _, rv := range ret.Results {
-					al, ok := resolve(rv).(*ssa.Alloc)
-					if !ok {
-						continue
-					}
-					nt, ok := al.Type().(*types.Pointer).Elem().(*types.Named)
-					if !ok {
-						continue
-					}
-					// field initialised with the locked object
-					for _, ref := range *al.Referrers() {
-						if fa, ok := ref.(*ssa.FieldAddr); ok {
-							for _, r2 := range *fa.Referrers() {
-								if st, ok := r2.(*ssa.Store); ok && objKey(p, st.Val) == l.obj {
-									tokType, via = nt, fieldOf(fa)
-								}
-							}
-						}
-					}
-				}
-			}
-			if all && n > 0 && tokType != nil {
-				lc.tokens[tokType] = via
-				res.Stats["lock_token_type_"+tokType.Obj().Name()] = fmt.Sprintf("methods of %s hold %s.%s (acquired by %s)", tokType.Obj().Name(), via.Name(), l.mutex.Name(), funcName(f))
-			}
-		}
+	for n, via := range lc.tokens {
+		res.Stats["lock_token_type_"+n.Obj().Name()] = fmt.Sprintf("methods of %s are entered with the lock of field %s held (acquired by the function that returns it)", n.Obj().Name(), via.Name())
 	}
 
 	// ---- collect accesses to fields of owner types ----
@@ -994,4 +941,70 @@ func checkUnguardedTypes(p *Prog, res *Result, inOwner map[*types.Var]bool) {
 			res.bad("C19-R4", construct, pos, fmt.Sprintf("a field of a type without a mutex is written after construction (%d write site(s)) and is neither accessed atomically nor listed as confined to one goroutine: potential unsynchronised shared state", len(fi.writes)))
 		}
 	}
+}
+
+// lockContext builds the lock context with the lock-token types (BeginBatchWrite idiom) resolved.
+func (p *Prog) lockContext() *lockCtx {
+	if p.lockCache != nil {
+		return p.lockCache
+	}
+	lc := &lockCtx{p: p, memo: map[string]int{}, visiting: map[string]bool{}, tokens: map[*types.Named]*types.Var{}}
+	// ---- lock token types (BeginBatchWrite idiom) ----
+	for _, f := range p.AllFuncs {
+		calls := mutexCallsIn(p, f)
+		for _, l := range calls {
+			if l.kind != "Lock" || l.deferred {
+				continue
+			}
+			unl := false
+			for _, u := range calls {
+				if u.obj == l.obj && u.mutex == l.mutex && (u.kind == "Unlock") {
+					unl = true
+				}
+			}
+			if unl {
+				continue
+			}
+			// every return is dominated by the Lock: the function hands the lock to its result
+			all, n := true, 0
+			var tokType *types.Named
+			var via *types.Var
+			for _, b := range f.Blocks {
+				ret, ok := b.Instrs[len(b.Instrs)-1].(*ssa.Return)
+				if !ok {
+					continue
+				}
+				n++
+				if !instrDominates(l.ins, ret) {
+					all = false
+				}
+				for _, rv := range ret.Results {
+					al, ok := resolve(rv).(*ssa.Alloc)
+					if !ok {
+						continue
+					}
+					nt, ok := al.Type().(*types.Pointer).Elem().(*types.Named)
+					if !ok {
+						continue
+					}
+					// field initialised with the locked object
+					for _, ref := range *al.Referrers() {
+						if fa, ok := ref.(*ssa.FieldAddr); ok {
+							for _, r2 := range *fa.Referrers() {
+								if st, ok := r2.(*ssa.Store); ok && objKey(p, st.Val) == l.obj {
+									tokType, via = nt, fieldOf(fa)
+								}
+							}
+						}
+					}
+				}
+			}
+			if all && n > 0 && tokType != nil {
+				lc.tokens[tokType] = via
+			}
+		}
+	}
+
+	p.lockCache = lc
+	return lc
 }
